@@ -15,7 +15,7 @@ REQUIRED = ['C09.wrap_range', 'C09.wrap_periodic', 'C09.wrap_spec', 'C09.ft_shap
             'C09.ft_hilbert_scale', 'C09.ft_nht_scale', 'C09.ft_nht_scale_any', 'C09.ft_quad_scale', 'C09.ft_quad_scale_needs_envelope',
             'C09.ft_nht_nonoscillatory', 'C09.ft_quad_nonoscillatory', 'C09.ft_nht_amplitude_is_envelope', 'C09.ft_hilbert_amplitude_finite',
             'C09.ft_nht_no_envelope_phase', 'C09.amplitudeNormalise_no_envelope',
-            'C09.amplitudeNormalise_scale_free', 'C09.amplitudeNormalise_sign', 'C09.quad_unit_modulus',
+            'C09.amplitudeNormalise_scale_free', 'C09.amplitudeNormalise_sign', 'C09.amplitudeNormalise_sign_needs_posEnv', 'C09.quad_unit_modulus',
             'C09.roundtrip_interior', 'C09.roundtrip_edges', 'C09.roundtrip_locally_const', 'C09.roundtrip_const']
 TRUSTED = [
     'PARTIAL: sinusoid recovery accuracy (frequency, amplitude, phase within tolerance) is a statement about the FFT '
@@ -1169,7 +1169,12 @@ class Normalise(Stream):
                 {'spec': {'n': 128, 'sr': 64.0, 'cols': [{'kind': 'sine', 'f': 5.0, 'a': 2.0, 'ph': 1.0}]}, 'clip': True, 'max_iters': 3,
                  'k': 2, 'c': 3.0, 'interp': 'splrep'},
                 {'spec': {'n': 64, 'sr': 256.0, 'cols': [{'kind': 'noise', 'seed': 10, 'a': 1.0, 'smooth': 1}]}, 'clip': False,
-                 'max_iters': 3, 'k': 1, 'c': 2.0, 'interp': 'splrep'}]
+                 'max_iters': 3, 'k': 1, 'c': 2.0, 'interp': 'splrep'},
+                # integer-quantised sine, splrep, random c: rounding breaks the exact ties of the flat-topped peaks of the second
+                # iterate (13 vs 12 extrema), the spline moves by 6e-6 everywhere (past failure of the random-c clause; see holds)
+                {'spec': {'n': 400, 'sr': 256.0, 'dtype': 'int', 'cols': [{'kind': 'sine', 'f': 3.176972665317497, 'a': 1003.8749988139488,
+                                                                          'ph': 2.1518293180553445}]},
+                 'clip': False, 'max_iters': 6, 'k': 16, 'c': 0.284331240362048, 'interp': 'splrep'}]
 
     def generate(self, rng, tier):
         n_cases = 600 if tier == 'thorough' else 90
@@ -1298,7 +1303,12 @@ class Normalise(Stream):
         if all(has) and case['max_iters'] >= 1:
             if not out['pow2_eq']:
                 fs.append(Failure('pow2-scale-changes-normalised', 'amplitude_normalise(x * 2^%d) differs from amplitude_normalise(x)' % case['k']))
-            if out['rand_diff'] > 1e-7:
+            # integer-quantised samples have exact ties at their flat-topped peaks; a rescaling that is not a power of two breaks
+            # them by rounding and the extrema set of the next iterate changes (extrema detection, C05).  The non-local cubic
+            # spline carries one flipped tie over the whole record (measured 6e-6), the local pchip does not: for splrep the
+            # random-c clause is evaluated on float records only (the bit-exact 2^k clause above always is)
+            tie_prone = self._interp(case) == 'splrep' and case['spec'].get('dtype') == 'int'
+            if out['rand_diff'] > 1e-7 and not tie_prone:
                 fs.append(Failure('scale-changes-normalised', 'amplitude_normalise(x * %r) differs by %g' % (case['c'], out['rand_diff'])))
         elif not any(has) or case['max_iters'] == 0:
             # nothing to normalise by: documented no-op (output scales with the input)
@@ -1314,6 +1324,8 @@ class Normalise(Stream):
             has = self._has_env(case)
             t.append('envelope' if all(has) else 'no-envelope')
             t.append('pos-env:validated' if all(self._pos_env(case)) else 'pos-env:fails(sign/scale clauses skipped)')
+            if self._interp(case) == 'splrep' and case['spec'].get('dtype') == 'int':
+                t.append('random-c-clause-skipped(splrep on integer ties)')
         return t
 
     def nontrivial(self, case, out):
